@@ -194,6 +194,17 @@ def runSessionBytes (answers : List String) (bytes : List Char) : List String :=
           | .hang => out := out ++ ["hang"]; live := false
     return out
 
+/-- total number of positions visited by the engine's test bench to depth d: perft(1) + … + perft(d) -/
+def modelNodes (p : Pos) : Nat → Nat
+  | 0 => 0
+  | d + 1 => let succs := generateMoves H p .all
+             succs.length + (succs.map fun q => modelNodes q d).sum
+
+def specNodes (P : Spec.Position) : Nat → Nat
+  | 0 => 0
+  | d + 1 => let ms := Spec.legalMoves P
+             ms.length + (ms.map fun m => specNodes (Spec.apply P m) d).sum
+
 def splitSp (s : String) : List String := s.splitOn " "
 
 def specLegal (P : Spec.Position) : Bool := Spec.LegalPosition P
@@ -342,6 +353,10 @@ def doOp (ctx : Ctx) (line : String) : Ctx × String × String :=
        (ctx, toString (calculateTimeSlice gt (if c == "w" then .white else .black)), "-")
      | _ => (ctx, "bad-op", "-"))
   | "clean" => (ctx, escape (cleanInput (unescape rest)), "-")
+  | "perft" =>
+    -- `perft <d>`: nodes visited by `walleye -T -d <d>` from the current position
+    let d := rest.toNat!
+    (ctx, toString (modelNodes ctx.cur d), match ctx.spec with | some P => toString (specNodes P d) | none => "-")
   | "sessb" =>
     -- `sessb <answers,comma separated>|<escaped bytes of standard input>`
     let (ansS, bytesS) := splitOnce rest "|"
